@@ -20,12 +20,12 @@ from vlib import traceprog as TP
 _SIB = {}
 
 
-def _sibling():
+def _sibling(env0=None):
     p = _SIB.get('p')
     if p is not None and p.poll() is None:
         return p
     root = os.path.dirname(os.path.dirname(os.path.abspath(__file__)))
-    env = dict(os.environ)
+    env = dict(env0 or os.environ)
     env['PYTHONPATH'] = root
     env.pop('PURE_PYTHON', None)
     p = subprocess.Popen([sys.executable, '-m', 'vlib.traceserver', 'c'], cwd=root, env=env, stdin=subprocess.PIPE,
@@ -38,12 +38,12 @@ def _sibling():
     return p
 
 
-def differential(family, program):
+def differential(family, program, env=None):
     local = TP.execute(family, program)
     if local is None:
         return False
     local = json.loads(json.dumps(dict(trace=local), default=repr))
-    p = _sibling()
+    p = _sibling(env)
     p.stdin.write(json.dumps(dict(family=family, program=program)) + '\n')
     p.stdin.flush()
     line = p.stdout.readline()
@@ -108,6 +108,9 @@ def describe(family, program):
             return '%s required=%s provided=%s name=%r uncached-answer=%s calls=%s,%s,%s' % (
                 ['LookupBase', 'VerifyingBase'][program[0]], TP.LB_REQ[program[1]], TP.LB_PROV[program[2]], TP.LB_NAME[program[3]],
                 TP.LB_ANS[program[4]], TP.LB_CALL[program[5]], TP.LB_CALL[program[6]], TP.LB_CALL[program[5]])
+        if family == 'snap':
+            return 'chain of %d VerifyingAdapterRegistry, %s in registry #%d of the resolution order, caches %s' % (
+                program[0], TP.SNAP_MUT[program[2]], program[1], 'warm' if program[3] else 'cold')
     except Exception:
         pass
     return repr(program)
@@ -216,6 +219,154 @@ _ENC = ['zope.interface._zope_interface_coptimizations:SpecificationBase', 'zope
 _OR = 'the trace of the same program on the other build (results as names/tags, exception type names, subsequent query results)'
 
 
+def make_snap(params, part, nparts):
+    def h(L: int, k: int, m: int, w: int):
+        cL = pick(L, 3) + 2
+        ck = pick(k, 3) + 1
+        assume(ck < cL)
+        cm = pick(m, len(TP.SNAP_MUT))
+        assume((cL * 5 + cm) % nparts == part)
+        prog = [cL, ck, cm, pick(w, 2)]
+        reached(tuple(prog), dict(family='snap', program=describe('snap', prog)))
+        native(differential, 'snap', prog)
+    return h
+
+
+def reference_slice():
+    """'lower:upper' of `self._verify_ro = self._registry.ro[lower:upper]` in the current Python VerifyingBase.changed (AST)."""
+    import ast
+    src = os.path.join(os.environ.get('VP_REPO', '/repo'), 'src', 'zope', 'interface', 'adapter.py')
+    try:
+        tree = ast.parse(open(src).read())
+    except Exception:
+        return None
+    for cls in ast.walk(tree):
+        if isinstance(cls, ast.ClassDef) and cls.name == 'VerifyingBase':
+            for fn in cls.body:
+                if isinstance(fn, ast.FunctionDef) and fn.name == 'changed':
+                    for node in ast.walk(fn):
+                        if (isinstance(node, ast.Assign) and len(node.targets) == 1 and isinstance(node.targets[0], ast.Attribute)
+                                and node.targets[0].attr == '_verify_ro' and isinstance(node.value, ast.Subscript)
+                                and isinstance(node.value.slice, ast.Slice) and node.value.slice.step is None):
+                            def const(x):
+                                if x is None:
+                                    return ''
+                                v = ast.literal_eval(x)
+                                if not isinstance(v, int):
+                                    raise ValueError(v)
+                                return str(v)
+                            try:
+                                return '%s:%s' % (const(node.value.slice.lower), const(node.value.slice.upper))
+                            except Exception:
+                                return None
+    return None
+
+
+# Engine C: functional contract of the generation snapshot on the IR of verify_changed / _verify (monitor M4 of vlib/irsym.py)
+def run_ir_snapshot(tier, ctx):
+    import shutil
+    import subprocess
+    import time
+    from concurrent.futures import ThreadPoolExecutor
+    from vlib import irsym
+    t0 = time.time()
+    agg = dict(harness='ir_snapshot', impl='c', kind='IR', paths=0, reached=0, distinct=0, unknown=0, solver_queries=0, solver_s=0.0,
+               samples=[], errors=[], exhaustive=False, jobs=[])
+    out = dict(agg=agg, violations=[], harness_errors=[], replays_attempted=0, replays_reproduced=0)
+    try:
+        text, wd = irsym.build_ir()
+    except Exception as e:
+        out['harness_errors'].append('ir_snapshot: cannot produce the IR: %s' % e)
+        return out
+    try:
+        irfile = os.path.join(wd, 'zic.m2r.ll')
+        funcs = irsym.parse(text)
+        missing = [f for f in ('_verify', 'verify_changed', 'VB_clear', '_generations_tuple') if f not in funcs]
+        if missing:
+            out['harness_errors'].append('ir_snapshot: functions not found in the IR (renamed?): %s' % missing)
+            return out
+        budget = 120 if tier != 'thorough' else 900
+        ref = reference_slice()
+        if ref is None:
+            out['harness_errors'].append('ir_snapshot: cannot read the reference slice from VerifyingBase.changed in adapter.py (rewritten?)')
+            return out
+        agg['reference_slice'] = 'ro[%s]' % ref
+        ctx = dict(ctx, env=dict(ctx['env'], VP_IRSYM_SLICE=ref))
+        jobs = [('_verify', 0, 0, '-'), ('verify_changed', 0, 0, '-'), ('_verify', 0, 1, '-'), ('verify_changed', 0, 1, '-')]
+        if tier == 'thorough':
+            jobs += [('_verify', 0, 2, '-'), ('verify_changed', 0, 2, '-')]
+
+        def run_job(job):
+            entry, exotic, mh, pfx = job
+            r = subprocess.run([ctx['py'], '-m', 'vlib.irsym', irfile, entry, str(exotic), str(mh), str(budget), pfx],
+                               cwd=ctx['root'], env=ctx['env'], capture_output=True, text=True, timeout=budget * 2 + 120)
+            for line in r.stdout.splitlines():
+                if line.startswith('IRJSON '):
+                    return job, json.loads(line[7:])
+            return job, dict(fatal=(r.stderr or r.stdout)[-800:])
+        with ThreadPoolExecutor(max_workers=ctx['ncpu']) as ex:
+            results = list(ex.map(run_job, jobs))
+        all_exh, found = True, []
+        for job, st in results:
+            if st.get('fatal'):
+                out['harness_errors'].append('ir_snapshot %r: worker failed: %s' % (job, st['fatal'][-300:]))
+                all_exh = False
+                continue
+            agg['paths'] += st['paths']
+            agg['solver_queries'] += st['queries']
+            agg['solver_s'] += st['solver_s']
+            agg['unknown'] += st.get('n_inconclusive', 0)
+            all_exh = all_exh and bool(st.get('exhausted')) and not st.get('n_inconclusive')
+            agg['jobs'].append(dict(entry=job[0], max_havocs=job[2], paths=st['paths'], exhausted=st.get('exhausted'),
+                                    inconclusive=st.get('n_inconclusive', 0)))
+            for v in st['violations']:
+                if v['kind'] == 'snapshot' and not any(x['msg'] == v['msg'] for x in found):     # memory-safety kinds belong to C11 ir_lookup
+                    found.append(v)
+        agg['reached'] = agg['distinct'] = agg['paths']
+        agg['exhaustive'] = all_exh
+        agg['solver_s'] = round(agg['solver_s'], 2)
+        agg['stubs'] = {k: v for k, v in irsym.STUB_DOC.items() if 'Tuple' in k or 'GetAttr' in k or 'RichCompare' in k or 'Call' in k}
+        # replay: every program of the 'snap' family on both builds; the finding is confirmed by a divergence of the real C build
+        for k, v in enumerate(found[:4]):
+            out['replays_attempted'] += 1
+            hit = None
+            for L in (2, 3, 4):
+                for kk in range(1, L):
+                    for m in range(len(TP.SNAP_MUT)):
+                        for w in (1, 0):
+                            prog = [L, kk, m, w]
+                            try:
+                                differential('snap', prog, ctx['env'])
+                            except Violation as e:
+                                hit = (prog, e)
+                                break
+                        if hit:
+                            break
+                    if hit:
+                        break
+                if hit:
+                    break
+            what = 'IR path in %s: %s' % (v['function'], v['msg'][:300])
+            if hit is None:
+                out['harness_errors'].append('ir_snapshot: %s - NOT reproduced by any snapshot program on the real build (inconclusive); trace: %s' % (
+                    what, ' | '.join(v['trace'][-6:])[:600]))
+                continue
+            out['replays_reproduced'] += 1
+            rpath = os.path.join(ctx['evdir'], 'replays', 'C10-ir_snapshot-%d.json' % k)
+            os.makedirs(os.path.dirname(rpath), exist_ok=True)
+            with open(rpath, 'w') as f:
+                json.dump(dict(property='C10', harness='d_snap', impl='py', params={},
+                               args=dict(L=hit[0][0] - 2, k=hit[0][1] - 1, m=hit[0][2], w=hit[0][3]),
+                               ir_finding=dict(function=v['function'], kind=v['kind'], msg=v['msg'], trace=v['trace'][-25:]),
+                               msg=hit[1].msg, signature=hit[1].signature), f, indent=1)
+            out['violations'].append(dict(harness='ir_snapshot', impl='c', msg='%s; reproduced on the real build: %s' % (what, hit[1].msg[:400]),
+                                          signature='C10:ir:snapshot:%s' % v['function'], replay=rpath))
+    finally:
+        shutil.rmtree(wd, ignore_errors=True)
+    agg['cpu_s'] = round(time.time() - t0, 1)
+    return out
+
+
 def _h(name, make, quick, thorough, bounds, qb=150, tb=3000, parts=16):
     return Harness(name, make, kind='E', impls=('py',),
                    tiers=dict(quick=dict(budget_s=qb, parts=parts, params=quick), thorough=dict(budget_s=tb, parts=parts, params=thorough)),
@@ -245,6 +396,23 @@ HARNESSES = [
        'answer None / factory / falsy / raises, every ordered pair of 9 calls (quick: 9 x 4), first call repeated'),
     _h('d_call', make_call, dict(max_hooks=1), dict(max_hooks=2),
        'adaptation programs: the product of C14 with hook lists of length <=1 (thorough 2); trace = outcome and executed-step log', parts=13),
+    _h('d_snap', make_snap, {}, {},
+       'generation-snapshot programs: chains of 2..4 VerifyingAdapterRegistry, one mutation (register / unregister / subscribe / unsubscribe / '
+       'added base) in any registry behind the front one, caches warm or cold; trace = 8 entry points of the front registry before and '
+       'after, and of a chain built afterwards', qb=60, tb=120, parts=4),
+    Harness('ir_snapshot', kind='custom', impls=('c',), run=run_ir_snapshot,
+            tiers=dict(quick=dict(budget_s=120, parts=1, params={}), thorough=dict(budget_s=900, parts=1, params={})),
+            encoded=['zope.interface._zope_interface_coptimizations:verify_changed', 'zope.interface._zope_interface_coptimizations:_verify',
+                     'zope.interface._zope_interface_coptimizations:_generations_tuple', 'zope.interface.adapter:VerifyingBase.changed',
+                     'zope.interface.adapter:VerifyingBase._verify'],
+            bounds='LLVM IR (clang-14 -O0 + mem2reg) of verify_changed and _verify with every C-API outcome a decision; resolution orders of '
+                   '0..2 registries (loops unrolled); 0..1 nested changed() (thorough 0..2); contract M4: on normal return _verify_ro is '
+                   'tuple(registry.ro)[1:len] and _verify_generations has one entry per registry; _verify calls changed() iff the recorded '
+                   'generations differ',
+            outside='resolution orders longer than 2 at the IR level (the d_snap programs run chains up to 4); exotic registries whose '
+                    '_generation/ro are computed (C11 ir_lookup)',
+            oracle='the Python reference VerifyingBase.changed/_verify as a postcondition over the IR state; findings replayed as a C-vs-Python '
+                   'divergence of a d_snap program'),
 ]
 for _x in HARNESSES:
     _x.needs_c = True
